@@ -295,6 +295,29 @@ CHECKS = [
      "utils.bootstrap_ci defects it met through showbias before they were repaired (f1e44e9, ae64b94); corpus/C18/regression_*.json "
      "pin them.",
      "Lean 4 proof about a hand-written model + differential correspondence check", "DESIGN.md §5 C18"),
+ chk("C16",
+     "Lean theorems about the model of roc_with_ci / _find_support_thresholds (nb_extra_points=20) / _add_extra_points / "
+     "_apply_rule_of_three / _aggregate_rectangles and of pointwise_band_ci / simultaneous_joint_region_ci, for ALL score lists, "
+     "configurations, supplied arrays, nb_points, axis names, rectangles, oracle values: C16_aggregate_envelope (the band at x_j "
+     "is a lower/upper bound of, and attained by, rectangle j and the rectangles whose x-interval covers x_j), C16_ordered, "
+     "C16_unit_interval, C16_no_nan (NumPy/Python NaN semantics are total on NaN-free input and return the rational band), "
+     "C16_rule_of_three (rows replaced exactly for p < 1/n resp. p > (n-1)/n, the code's form) with C16_rule_of_three_exact / "
+     "_zero_one (for a rate k/n: exactly rate 0 resp. 1) and ruleOfThreeRow_wf, C16_support_perm / _contains / _length / "
+     "C16_monotone / C16_total / C16_roc_total (thresholds = plain support + extra points + four sentinels; accepted arguments), "
+     "C16_rates_match (rates of the object, never NaN), C16_closed_form / C16_length / C16_roc_wellformed (bands = "
+     "aggregate(rule-of-three(bootstrap intervals)); (n,2), NaN-free, ordered, within [0,1] given ordered intervals in [0,1] and "
+     "0 <= pow <= 1), C16_identity_interval (all replicates equal => quantile/BC/BCa limits = (estimate, estimate)) and "
+     "C16_identity_closed_form, C16_sjr_ordered, C16_pointwise_band, C16_spec_* (executable predicates hold of the model). Tied "
+     "to /repo by real calls of the four band functions over all 16 combinations of supplied fnr/fpr/thresholds/nb_points, 8 "
+     "axes, 4 alphas, 3 bootstrap methods, identity and 6 built-in sampler configurations (recorded _apply_rule_of_three / "
+     "_aggregate_rectangles / Scores.bootstrap_ci calls; joint interval recomputed under the same seed), by direct calls of the "
+     "two helpers (incl. NaN entries), and by evaluating the Lean predicates on the implementation's own outputs.",
+     BASE_NOTE + "fixed_width_band_ci is NOT modelled: accepts-arguments / rates / (n,2) / NaN-free / ordered are evaluated on "
+     "the implementation only (supports with >= 3 points; with exactly 2 support points every call raises ValueError). The joint "
+     "bootstrap interval, math.pow(alpha,1/n), ksone.ppf and np.nextafter are oracles; exact rates k/m decide the rule-of-three "
+     "trigger (same decision as the float comparison); the number of extra support points is taken from the implementation's "
+     "own plain support (C15); thresholds compared as sorted multisets to 1e-9, band values to 1e-12.",
+     "Lean 4 proof about a hand-written model + differential correspondence check", "DESIGN.md §5 C16"),
 ]
 
 ALL = [f"C{i:02d}" for i in range(1, 21)]
